@@ -13,10 +13,10 @@ import (
 )
 
 type SolverCfg struct {
-	WorkDir  string
-	Timeout  time.Duration // per solver attempt
-	Parallel int
-	Thorough bool // consult all solvers and cross-check
+	WorkDir   string
+	Timeout   time.Duration // per solver attempt in the race
+	Parallel  int
+	Thorough  bool // consult all solvers and cross-check
 	KeepFiles bool
 }
 
@@ -27,21 +27,24 @@ type solverSpec struct {
 
 var solvers = []solverSpec{
 	{"z3new", func(t int, f string) []string { return []string{"z3-new", fmt.Sprintf("-T:%d", t), f} }},
+	{"z3new-norel", func(t int, f string) []string {
+		return []string{"z3-new", fmt.Sprintf("-T:%d", t), "smt.relevancy=0", "smt.auto_config=false", f}
+	}},
 	{"z3", func(t int, f string) []string { return []string{"z3", fmt.Sprintf("-T:%d", t), f} }},
 	{"cvc5", func(t int, f string) []string {
 		return []string{"cvc5", fmt.Sprintf("--tlimit=%d", t*1000), f}
 	}},
 }
 
-func runSolver(s solverSpec, file string, timeout time.Duration) (status string, out string, secs float64) {
+func runSolverCtx(ctx context.Context, s solverSpec, file string, timeout time.Duration) (status string, out string, secs float64) {
 	ts := int(timeout.Seconds())
 	if ts < 1 {
 		ts = 1
 	}
 	args := s.args(ts, file)
-	ctx, cancel := context.WithTimeout(context.Background(), timeout+3*time.Second)
+	cctx, cancel := context.WithTimeout(ctx, timeout+3*time.Second)
 	defer cancel()
-	cmd := exec.CommandContext(ctx, args[0], args[1:]...)
+	cmd := exec.CommandContext(cctx, args[0], args[1:]...)
 	var buf bytes.Buffer
 	cmd.Stdout = &buf
 	cmd.Stderr = &buf
@@ -57,7 +60,9 @@ func runSolver(s solverSpec, file string, timeout time.Duration) (status string,
 		return "sat", out, secs
 	case first == "unknown":
 		return "unknown", out, secs
-	case strings.Contains(first, "timeout") || ctx.Err() != nil:
+	case ctx.Err() != nil:
+		return "cancelled", out, secs
+	case strings.Contains(first, "timeout") || cctx.Err() != nil:
 		return "timeout", out, secs
 	case strings.Contains(out, "interrupted") || strings.Contains(out, "time limit"):
 		return "timeout", out, secs
@@ -65,9 +70,21 @@ func runSolver(s solverSpec, file string, timeout time.Duration) (status string,
 	return "error", out, secs
 }
 
+func runSolver(s solverSpec, file string, timeout time.Duration) (string, string, float64) {
+	return runSolverCtx(context.Background(), s, file, timeout)
+}
+
+// cpuSem bounds the number of solver processes running at once.
+var cpuSem chan bool
+
 // Discharge runs the solvers on every obligation of the units.
 func Discharge(units []*Unit, cfg SolverCfg) {
 	os.MkdirAll(cfg.WorkDir, 0o755)
+	par := cfg.Parallel
+	if par <= 0 {
+		par = 8
+	}
+	cpuSem = make(chan bool, par)
 	type job struct {
 		u *Unit
 		o *Obligation
@@ -81,18 +98,21 @@ func Discharge(units []*Unit, cfg SolverCfg) {
 			jobs = append(jobs, job{u, o})
 		}
 	}
-	ch := make(chan job)
+	// stage 1: one fast attempt each
+	var hard []job
+	var mu sync.Mutex
 	var wg sync.WaitGroup
-	par := cfg.Parallel
-	if par <= 0 {
-		par = 8
-	}
+	ch := make(chan job)
 	for w := 0; w < par; w++ {
 		wg.Add(1)
 		go func() {
 			defer wg.Done()
 			for j := range ch {
-				dischargeOne(j.u, j.o, cfg)
+				if !stage1(j.u, j.o, cfg) {
+					mu.Lock()
+					hard = append(hard, j)
+					mu.Unlock()
+				}
 			}
 		}()
 	}
@@ -101,9 +121,18 @@ func Discharge(units []*Unit, cfg SolverCfg) {
 	}
 	close(ch)
 	wg.Wait()
+	// stage 2: race several solver configurations on what is left
+	var wg3 sync.WaitGroup
+	for _, j := range hard {
+		wg3.Add(1)
+		go func(j job) {
+			defer wg3.Done()
+			stage2(j.u, j.o, cfg)
+		}(j)
+	}
+	wg3.Wait()
 	// vacuity guard: the facts of each unit together with its normal-return condition must not be contradictory
 	var wg2 sync.WaitGroup
-	sem := make(chan bool, par)
 	for _, u := range units {
 		if u.VC == nil {
 			continue
@@ -112,10 +141,10 @@ func Discharge(units []*Unit, cfg SolverCfg) {
 			u.ReachCond = "true"
 		}
 		wg2.Add(1)
-		sem <- true
 		go func(u *Unit) {
 			defer wg2.Done()
-			defer func() { <-sem }()
+			cpuSem <- true
+			defer func() { <-cpuSem }()
 			o := &Obligation{Name: u.VC.name + "/reach", Goal: "(not " + u.ReachCond + ")", NFacts: len(u.VC.facts)}
 			file := oblFile(cfg.WorkDir, o)
 			os.WriteFile(file, []byte(u.VC.script(o, false)), 0o644)
@@ -142,61 +171,101 @@ func oblFile(workdir string, o *Obligation) string {
 	return filepath.Join(workdir, n+".smt2")
 }
 
-func dischargeOne(u *Unit, o *Obligation, cfg SolverCfg) {
+func stage1(u *Unit, o *Obligation, cfg SolverCfg) bool {
 	file := oblFile(cfg.WorkDir, o)
-	script := u.VC.script(o, false)
-	os.WriteFile(file, []byte(script), 0o644)
+	os.WriteFile(file, []byte(u.VC.script(o, false)), 0o644)
 	o.File = file
-	total := 0.0
+	cpuSem <- true
+	st, out, secs := runSolver(solvers[0], file, 2*time.Second)
+	<-cpuSem
+	o.Seconds += secs
+	if st == "unsat" && !cfg.Thorough {
+		o.Status, o.Solver = "unsat", solvers[0].name
+		if !cfg.KeepFiles {
+			os.Remove(file)
+		}
+		return true
+	}
+	if st == "sat" && !cfg.Thorough {
+		o.Status, o.Solver = "sat", solvers[0].name
+		fetchModel(u, o, solvers[0], cfg)
+		return true
+	}
+	_ = out
+	return false
+}
+
+func fetchModel(u *Unit, o *Obligation, s solverSpec, cfg SolverCfg) {
+	mfile := strings.TrimSuffix(o.File, ".smt2") + ".model.smt2"
+	os.WriteFile(mfile, []byte(u.VC.script(o, true)), 0o644)
+	cpuSem <- true
+	_, mout, _ := runSolver(s, mfile, cfg.Timeout)
+	<-cpuSem
+	o.Model = mout
+	if !cfg.KeepFiles {
+		os.Remove(mfile)
+	}
+}
+
+func stage2(u *Unit, o *Obligation, cfg SolverCfg) {
+	file := o.File
+	ctx, cancel := context.WithCancel(context.Background())
+	defer cancel()
+	type res struct {
+		s      solverSpec
+		status string
+		out    string
+		secs   float64
+	}
+	rc := make(chan res, len(solvers))
+	for _, s := range solvers {
+		go func(s solverSpec) {
+			cpuSem <- true
+			defer func() { <-cpuSem }()
+			if ctx.Err() != nil {
+				rc <- res{s, "cancelled", "", 0}
+				return
+			}
+			st, out, secs := runSolverCtx(ctx, s, file, cfg.Timeout)
+			rc <- res{s, st, out, secs}
+		}(s)
+	}
 	verdicts := map[string]string{}
-	// primary: z3-new with a short budget, then the others
-	order := []int{0, 1, 2}
-	for k, si := range order {
-		s := solvers[si]
-		to := cfg.Timeout
-		if k == 0 && !cfg.Thorough && to > 10*time.Second {
-			to = 10 * time.Second
-		}
-		st, out, secs := runSolver(s, file, to)
-		total += secs
-		verdicts[s.name] = st
-		if st == "unsat" {
+	var satSolver *solverSpec
+	for range solvers {
+		r := <-rc
+		o.Seconds += r.secs
+		verdicts[r.s.name] = r.status
+		switch r.status {
+		case "unsat":
 			if o.Status != "unsat" {
-				o.Status, o.Solver = "unsat", s.name
+				o.Status, o.Solver = "unsat", r.s.name
 			}
 			if !cfg.Thorough {
-				break
+				cancel()
 			}
-			continue
-		}
-		if st == "sat" {
-			// a sat answer on a quantified problem may be spurious only for incomplete instantiation "unknown";
-			// solvers answering sat claim a model: keep it and fetch the model
-			if o.Status != "unsat" {
-				o.Status, o.Solver = "sat", s.name
-				mfile := strings.TrimSuffix(file, ".smt2") + ".model.smt2"
-				os.WriteFile(mfile, []byte(u.VC.script(o, true)), 0o644)
-				_, mout, _ := runSolver(s, mfile, to)
-				o.Model = mout
-				if !cfg.KeepFiles {
-					os.Remove(mfile)
+		case "sat":
+			if o.Status != "unsat" && satSolver == nil {
+				ss := r.s
+				satSolver = &ss
+				o.Status, o.Solver = "sat", r.s.name
+			}
+			if !cfg.Thorough {
+				cancel()
+			}
+		case "cancelled":
+		default:
+			if o.Status == "" {
+				o.Status, o.Solver = r.status, r.s.name
+				if r.status == "error" {
+					o.Model = firstLines(r.out, 20)
 				}
-			}
-			if !cfg.Thorough {
-				break
-			}
-			continue
-		}
-		if o.Status == "" || o.Status == "error" {
-			o.Status = st
-			o.Solver = s.name
-			if st == "error" {
-				o.Model = out
+			} else if o.Status == "error" && r.status != "error" {
+				o.Status, o.Solver = r.status, r.s.name
 			}
 		}
 	}
 	if cfg.Thorough {
-		// cross-check: sat vs unsat disagreement is an engine error
 		hasSat, hasUnsat := false, false
 		for _, v := range verdicts {
 			if v == "sat" {
@@ -209,9 +278,12 @@ func dischargeOne(u *Unit, o *Obligation, cfg SolverCfg) {
 		if hasSat && hasUnsat {
 			o.Status = "error"
 			o.Model = fmt.Sprintf("solver disagreement: %v", verdicts)
+			return
 		}
 	}
-	o.Seconds = total
+	if o.Status == "sat" && satSolver != nil {
+		fetchModel(u, o, *satSolver, cfg)
+	}
 	if o.Status == "unsat" && !cfg.KeepFiles {
 		os.Remove(file)
 	}
